@@ -38,4 +38,88 @@ CHECKS = {
   "design_ref": "DESIGN.md section 3 C08",
   "note": "Trusted: cgstatic's evaluator; PySAT/approxmc interface conventions; exactness on a real solver follows from C01 plus the blocking-clause rule and is argued, not mechanised; use_xor_clauses mode not covered.",
  },
+ "C02": {
+  "technique": "static: verilog.lark loaded as data (lark LALR tables) + transformer callbacks evaluated from source by the checker's own AST evaluator (cgstatic.minieval) over reference model objects (cgstatic.refmodel); the package is never imported or run by CPython, no solver; reference Verilog-2001 expression parser/evaluator as oracle; rule/callback agreement",
+  "text": "For systematic families of continuous assignments (all operator pairs/triples without parentheses, unary forms, parenthesised and nested conditionals, constants), primitive instances of every type (several per statement), named-port blackbox instances (connected / unconnected pins) and port-list mismatches, the circuit built by the grammar + callbacks is compared by exhaustive simulation with what the netlist denotes; declared ports are exactly the io; mismatching port lists are rejected; names colliding with the parser's synthetic names are probed (three known findings).",
+  "design_ref": 'DESIGN.md section 3 C02',
+  "note": "Trusted: lark's LALR engine and Transformer protocol (reproduced by a 20-line driver); the checker's reference expression semantics; netlists outside the enumerated families are not decided.",
+ },
+ "C03": {
+  "technique": "static: io.circuit_to_verilog / verilog_to_circuit / to_file / from_file evaluated from source by the checker's own AST evaluator (cgstatic.minieval) over reference model objects (cgstatic.refmodel); the package is never imported or run by CPython, no solver; text parsed with the grammar-as-data driver; in-memory file model",
+  "text": 'For model circuits covering every gate type at fan-in 1..3, multi-level circuits, constants incl. x, outputs that are inputs or constants, blackboxes with connected/unconnected pins and escaped identifiers, in both output styles, reading back the written text preserves name, io sets, blackbox pins and the function at every output and blackbox input pin; without constants the primitive form round-trips to an identical graph; same through to_file/from_file; unknown formats raise.',
+  "design_ref": 'DESIGN.md section 3 C03',
+  "note": 'Trusted: the C02 driver; the in-memory file model; circuits outside the families are not decided.',
+ },
+ "C04": {
+  "technique": "static: tx.miter evaluated from source by the checker's own AST evaluator (cgstatic.minieval) over reference model objects (cgstatic.refmodel); the package is never imported or run by CPython, no solver; exhaustive simulation oracle",
+  "text": "On pairs of model circuits (identical, one gate retyped, different io sets, self-miter, explicit startpoint/endpoint subsets) the miter's inputs are the tied startpoints, its only output is sat, and sat equals 'some compared endpoint differs' for every valuation of tied and independent untied startpoints, with values taken from the original circuits; defaults are the intersections; blackboxes are rejected.",
+  "design_ref": 'DESIGN.md section 3 C04',
+  "note": 'Trusted: reference Circuit model (add_subcircuit semantics are decided separately by C06); pairs outside the families.',
+ },
+ "C05": {
+  "technique": "static: helper-gate table rule (syntactic, arity independent) + limit_fanin/limit_fanout/insert_registers/acyclic_unroll evaluated from source by the checker's own AST evaluator (cgstatic.minieval) over reference model objects (cgstatic.refmodel); the package is never imported or run by CPython, no solver",
+  "text": 'The helper-gate table equals the non-inverting base table (algebraic, every arity). On every gate type at fan-in 1..5 and multi-level model circuits, k in {2,3}: same io, bound respected at every node, every original node keeps its function, k<2 raises; flops inserted by insert_registers replaced by d->q wires give an equivalent circuit; acyclic_unroll of an acyclic circuit is equivalent.',
+  "design_ref": 'DESIGN.md section 3 C05',
+  "note": 'Trusted: reference Circuit model; circuits outside the families; depth arithmetic of insert_registers beyond the families.',
+ },
+ "C06": {
+  "technique": "static: Circuit.add_subcircuit / fill_blackbox (methods, self = reference model) and tx.strip_blackboxes evaluated from source by the checker's own AST evaluator (cgstatic.minieval) over reference model objects (cgstatic.refmodel); the package is never imported or run by CPython, no solver; functional-substitution oracle",
+  "text": "On model parents/children (connected and unconnected io, child output that is an input, constants, sub-blackboxes, both strip_io settings): spliced nodes compute the child's function of the attached nets, untouched nodes keep theirs, io sets and registry bookkeeping are as documented, the child is unchanged, rejected calls raise ValueError (and merge nothing where checked before merging); strip_blackboxes exposes pins as inst_pin io, deletes ignored pins, keeps every other function.",
+  "design_ref": 'DESIGN.md section 3 C06',
+  "note": 'Trusted: reference DiGraph model of relabel_nodes / update; families only.',
+ },
+ "C09": {
+  "technique": "static: tx.unroll / tx.sequential_unroll evaluated from source by the checker's own AST evaluator (cgstatic.minieval) over reference model objects (cgstatic.refmodel); the package is never imported or run by CPython, no solver; iterated / cycle-accurate reference simulation",
+  "text": 'On model state machines (1-2 state bits, with and without free inputs, flip-flop blackboxes) and n = 1..3: free inputs are step-0 state plus per-step inputs, io_map[o][t] equals iterated execution for every initial state and input sequence, flop outputs exposed only on request, initial values applied to step 0, clock pins removed; guards raise.',
+  "design_ref": 'DESIGN.md section 3 C09',
+  "note": 'Trusted: reference Circuit model; step counts / machines outside the families.',
+ },
+ "C10": {
+  "technique": "static: tx.ternary evaluated from source by the checker's own AST evaluator (cgstatic.minieval) over reference model objects (cgstatic.refmodel); the package is never imported or run by CPython, no solver; Kleene three-valued oracle",
+  "text": 'On every gate type at fan-in 1..3, two-level and multi-level model circuits: the binary rail is the unchanged circuit, companions are fresh and distinct, and for every (value, X-flag) input assignment mapping[n]==1 iff Kleene evaluation gives X, else n carries the Kleene value.',
+  "design_ref": 'DESIGN.md section 3 C10',
+  "note": 'Trusted: reference Circuit model; the induction over circuit structure is argued, families only.',
+ },
+ "C11": {
+  "technique": "static: sensitization/sensitivity transforms and props.sensitize/sensitivity/influence/avg_sensitivity evaluated from source by the checker's own AST evaluator (cgstatic.minieval) over reference model objects (cgstatic.refmodel); the package is never imported or run by CPython, no solver with a reference brute-force SAT layer",
+  "text": "For every node of the model circuits: sat of the sensitization transform equals 'inverting n changes a (selected) endpoint'; sensitize returns None iff unsensitizable, else a sensitizing startpoint valuation; dif_out_s equals 'flipping s flips n' and sen_out encodes their count; sensitivity is the maximum count; exact influence is the per-startpoint fraction and avg_sensitivity their sum.",
+  "design_ref": 'DESIGN.md section 3 C11',
+  "note": 'Trusted: sat.solve / sat.model_count replaced by reference brute force (the real ones are decided by C01/C08); approx and supergates modes not covered.',
+ },
+ "C12": {
+  "technique": "static: Circuit's query methods evaluated from source by the checker's own AST evaluator (cgstatic.minieval) over reference model objects (cgstatic.refmodel); the package is never imported or run by CPython, no solver, exhaustive over all labelled digraphs on <= 3 nodes (subset/all on 4); syntactic direction-table rule",
+  "text": 'fanin/fanout, transitive_fanin/out, startpoints/endpoints (reflexive, with blackbox pins), is_cyclic, topo_sort, fanin_depth/fanout_depth, reconvergent_fanout_nodes/has_reconvergent_fanout, kcuts (size bound + separation) and props.levelize agree with their graph-theoretic definitions on every enumerated graph, cyclic ones included (raise where documented).',
+  "design_ref": 'DESIGN.md section 3 C12',
+  "note": 'Trusted: reference DiGraph model of predecessors/successors/ancestors/descendants/topological order; graphs above 4 nodes.',
+ },
+ "C14": {
+  "technique": "static: regex-literal character classes (re._parser) vs the grammar's identifier terminal; fast parser evaluated from source by the checker's own AST evaluator (cgstatic.minieval) over reference model objects (cgstatic.refmodel); the package is never imported or run by CPython, no solver with a faithful re model and compared with the full parser",
+  "text": "Identifier sub-patterns of the fast parser accept every first/following character the grammar accepts; on the library writer's output for model circuits and on synthesis-style netlists (underscore names, constant operands, net/constant assigns, blackbox pins connected/constant/unconnected, multi-line declarations, nets named tie0/tie1) both parsers return the same io, blackbox pins and identical graphs up to constant node names.",
+  "design_ref": 'DESIGN.md section 3 C14',
+  "note": "Trusted: Python's re on plain strings; the C02 driver; language equivalence on all texts is not decided.",
+ },
+ "C15": {
+  "technique": "static: keyword-table rule on the reader's literal list; io.bench_to_circuit / circuit_to_bench evaluated from source by the checker's own AST evaluator (cgstatic.minieval) over reference model objects (cgstatic.refmodel); the package is never imported or run by CPython, no solver; operand-multiplicity rule on emitted lines",
+  "text": 'Every dialect keyword in both cases with 1..3 operands, BUFF, use-before-definition, spacing variants and DFF lines read to circuits with the declared io whose nets compute what the text denotes (DFF = flip-flop blackbox between D and Q nets); writing model circuits (incl. constants) and reading back preserves io and output functions; no emitted gate repeats an operand; blackboxes / x are rejected.',
+  "design_ref": 'DESIGN.md section 3 C15',
+  "note": "Trusted: Python's re; texts/circuits outside the families.",
+ },
+ "C16": {
+  "technique": "static: Circuit.remove_unloaded evaluated from source by the checker's own AST evaluator (cgstatic.minieval) over reference model objects (cgstatic.refmodel); the package is never imported or run by CPython, no solver, exhaustive over small labelled DAGs with all output-mark choices, both flags",
+  "text": 'Removed set equals the dead gates and constants (no endpoint reachable), inputs/blackbox pins never removed with inputs=False and dead inputs removed with inputs=True, remaining nodes untouched, return value equals the removed set, second call removes nothing; one known finding (dead combinational loop).',
+  "design_ref": 'DESIGN.md section 3 C16',
+  "note": 'Trusted: reference Circuit model; DAGs above 4 nodes.',
+ },
+ "C17": {
+  "technique": "static: networkx immediate_dominators contract read from the installed source (ast) + tx.supergates evaluated from source by the checker's own AST evaluator (cgstatic.minieval) over reference model objects (cgstatic.refmodel); the package is never imported or run by CPython, no solver with a textbook dominator model",
+  "text": "supergates does not assume a dominator-map key the library deletes; on model circuits every block is a single-output sub-circuit of the fan-in-limited circuit with its wiring, blocks are in topological order and cover the output cones, block inputs have pairwise disjoint reflexive fan-in, and filling the super-circuit's blackboxes reproduces an equivalent circuit.",
+  "design_ref": 'DESIGN.md section 3 C17',
+  "note": 'Trusted: the dominator model; maximality/minimality of the cover and circuits outside the families are not decided.',
+ },
+ "C18": {
+  "technique": "static: must-pass-through rule on acyclic_unroll's exits (syntactic) + acyclic_unroll evaluated from source by the checker's own AST evaluator (cgstatic.minieval) over reference model objects (cgstatic.refmodel); the package is never imported or run by CPython, no solver on model cyclic circuits; exhaustive stable-state enumeration",
+  "text": 'lint and the is_cyclic guard dominate the return, the blackbox guard comes first; on SR latch / gated ring / interlocked loops / loops through outputs the result is acyclic, lint-clean, has the same outputs and original inputs plus auxiliary inputs, and every stable state is preserved when auxiliaries take the stable values of their feedback nodes.',
+  "design_ref": 'DESIGN.md section 3 C18',
+  "note": 'Trusted: reference Circuit model; utils.lint (decided by C20); cyclic circuits outside the families.',
+ },
 }
